@@ -2,19 +2,32 @@
 rich.text.Text; after every call the object's len(), plain and per-character effective style are
 projected and TLC (Trace_TextOps) compares them with the reference semantics of TextOps.tla."""
 import io
+import os
 
 from engine import tlc
 from engine.harness import Check
+from engine.watch import cpu_deadline
 
 NSTY = 4
-ALPHA = ["a", "b", " ", " ", "\t", "\n", "世", "́", "\r", "\x08", "x"]
-PADCH = [" ", "-", "*"]
-SEPS = ["\n", " ", "\t", "ab"]
+# characters of generated strings: letters, blanks, tab, newline, wide, zero-width, every control code the
+# constructor strips (BS VT FF CR) and one it keeps (BEL), regex-special characters (split / highlight go through re),
+# a digit and brackets (what the repr highlighter looks for)
+ALPHA = ["a", "b", " ", " ", "\t", "\n", "世", "́", "\r", "\x08", "x", "a", " ", "\t", "\n", "世",
+         "\x0b", "\x0c", "\x07", ".", "|", "(", "1", "A", "$", "+", "*", "?", "[", ".", "a"]
+META = ".|$+(*?[\\^)]{}"
+ALPHA_META = [".", "|", "$", "+", "(", "*", "?", "[", "\\", "^", ")", "a", "b", " ", "\n", "a", ".", "世", "\t"]      # texts for split / highlight
+SAFE = [c for c in ALPHA if c not in "\r\x08\x0b\x0c"]      # for entry points whose control-code handling the statement leaves open
+PADCH = [" ", "-", "*", "世", "."]
+# separators: split() goes through re - every regex metacharacter, alone and inside multi-character separators, and
+# separators that occur in the alphabet above (a separator that never occurs takes the early exit)
+SEPS = ["\n", " ", "\t", "ab", ".", "|", "(", "$", "+", "*", "?", "[", "\\", "^", "a.", ". ", "a|b", "a+", "a?", "a*", "b$", "(a", "[a]",
+        "..", ".\n", " a", "世", "a世", "\n\n", "1", "x"]
 
 
 ACTIONS = ["New", "AppendStrA", "AppendTextA", "AssembleA", "JoinA", "SplitA", "DivideA", "IndexA", "SliceA", "PadA",
            "AlignA", "TruncateA", "RightCropA", "SetLengthA", "ExpandTabsA", "CopyA", "RstripA", "RstripEndA",
-           "RemoveSuffixA", "StylizeA", "CopyStylesA", "SwapA"]
+           "RemoveSuffixA", "StylizeA", "CopyStylesA", "SwapA", "AppendSelfA", "AppendTokensA", "FitA", "JustifyA",
+           "BlankCopyA", "SetPlainA"]
 
 
 def env():
@@ -25,8 +38,25 @@ def env():
     sty = {0: None,
            1: Style(bold=True, color="red"), 2: Style(italic=True, color="green"),
            3: Style(underline=True, color="blue"), 4: Style(strike=True, color="yellow")}
-    console = Console(file=io.StringIO(), width=200)
-    return dict(Console=Console, Style=Style, Text=Text, w=get_character_cell_size, sty=sty, console=console)
+    # the same styles the way a user writes them (every style parameter is Union[str, Style])
+    sty_s = {0: None, 1: "bold red", 2: "italic green", 3: "underline blue", 4: "strike yellow"}
+    # named styles the repr highlighter refers to are mapped onto the four test styles (the default theme's
+    # repr.* styles switch attributes OFF, which the additive style abstraction {ids present, top colour} cannot express)
+    import re
+    from rich import highlighter as _hl
+    from rich.theme import Theme
+    names = sorted({"repr." + g for pat in _hl.ReprHighlighter.highlights for g in re.compile(pat).groupindex})
+    console = Console(file=io.StringIO(), width=200, theme=Theme({n: sty_s[1 + i % 4] for i, n in enumerate(names)}))
+    from rich.text import Span
+    from rich.containers import Lines
+    from rich import highlighter as hl
+    return dict(Console=Console, Style=Style, Text=Text, Span=Span, Lines=Lines, hl=hl, w=get_character_cell_size, sty=sty, sty_s=sty_s,
+                console=console)
+
+
+def styles(E, op):
+    """style table for one call: Style objects, or (op["sf"]) the equivalent style definitions as strings"""
+    return E["sty_s"] if op.get("sf") else E["sty"]
 
 
 def S(E, s):
@@ -39,12 +69,32 @@ def tostr(pairs):
 
 
 def mk(E, lit):
-    """text operand literal {str, base, spans} -> real Text"""
+    """text operand literal {str, base, spans} -> real Text.  Optional (invisible to the model, same meaning):
+    via = stylize (default) | spans (the constructor's spans= argument; in-range spans only) | styled (Text.styled:
+    one span over everything); sf = styles given as strings; tov / tab = the Text's own overflow / tab_size"""
     Text = E["Text"]
-    t = Text(tostr(lit["str"]), style=E["sty"][lit["base"]] or "")
+    sty = styles(E, lit)
+    kw = {}
+    if lit.get("tov"):
+        kw["overflow"] = lit["tov"]
+    if lit.get("tab"):
+        kw["tab_size"] = lit["tab"]
+    via = lit.get("via", "stylize")
+    if via == "styled":
+        (a, b, k), = lit["spans"]
+        t = Text.styled(tostr(lit["str"]), sty[k], **({"overflow": kw["overflow"]} if "overflow" in kw else {}))
+        if "tab_size" in kw:
+            t.tab_size = kw["tab_size"]
+        return t
+    if via == "spans":
+        return Text(tostr(lit["str"]), style=sty[lit["base"]] or "", spans=[E["Span"](a, b, sty[k]) for a, b, k in lit["spans"]], **kw)
+    t = Text(tostr(lit["str"]), style=sty[lit["base"]] or "", **kw)
     for a, b, k in lit["spans"]:
-        t.stylize(E["sty"][k], a, b)
+        t.stylize(sty[k], a, b)
     return t
+
+
+EMPTY_LIT = dict(str=[], base=0, spans=[])
 
 
 _ATTR = ["bold", "italic", "underline", "strike"]
@@ -60,7 +110,9 @@ def observe(E, t):
     plain = t.plain
     chars = []
     try:
-        for seg in t.render(E["console"]):
+        with cpu_deadline(4.0):
+            segs = list(t.render(E["console"]))
+        for seg in segs:
             st = seg.style
             ids = []
             top = 0
@@ -78,9 +130,22 @@ def observe(E, t):
     return dict(len=n, chars=chars)
 
 
-def execute(E, ops):
+KINDS = {"swap", "new", "append_str", "append_text", "append_tokens", "assemble", "join", "split", "divide", "fit", "index", "slice",
+         "pad", "pad_left", "pad_right", "align", "truncate", "justify", "right_crop", "set_length", "expand_tabs", "copy", "blank_copy",
+         "set_plain", "rstrip", "rstrip_end", "remove_suffix", "stylize", "copy_styles", "highlight", "highlighter"}
+
+
+_DEADLINE, _HANGS = [4.0], [0]          # CPU seconds allowed to one call into Rich (real calls take well under a millisecond)
+
+
+def _maybe_iter(op, seq):
+    """Iterable parameters are also given as one-shot iterators"""
+    return iter(seq) if op.get("it") else seq
+
+
+def execute(E, ops, want_text=False):
     """Run a history; returns list of events (op + observation)."""
-    Text, sty = E["Text"], E["sty"]
+    Text = E["Text"]
     t = Text("")
     sib = Text("")          # the object the current text was derived from; it stays alive
     events = []
@@ -88,88 +153,145 @@ def execute(E, ops):
         e = dict(op)
         e["exc"] = "none"
         k = op["k"]
+        if k not in KINDS:
+            raise RuntimeError("unknown operation %r" % k)
+        sty = styles(E, op)
         pieces = None
         before = t
         try:
-            if k == "swap":
-                t, sib = sib, t
-                before = t
-            elif k == "new":
-                t = mk(E, op["t"])
-            elif k == "append_str":
-                t.append(tostr(op["str"]), sty[op["sty"]])
-            elif k == "append_text":
-                o = mk(E, op["t"])
-                via = op.get("via", "append")
-                if via == "append":
-                    t.append(o)
-                elif via == "append_text":
-                    t.append_text(o)
-                else:
-                    t = t + o
-            elif k == "assemble":
-                parts = []
-                for p in op["parts"]:
-                    if p["kind"] == "cur":
-                        parts.append(t)
-                    elif p["kind"] == "str":
-                        parts.append((tostr(p["str"]), sty[p["sty"]]) if p["sty"] else tostr(p["str"]))
+            with cpu_deadline(_DEADLINE[0]):      # a call that spins (and allocates) is an observation, not a dead check
+                if k == "swap":
+                    t, sib = sib, t
+                    before = t
+                elif k == "new":
+                    t = mk(E, op["t"])
+                elif k == "append_str":
+                    if op.get("via", "append") == "add":
+                        t = t + tostr(op["str"])
+                    elif op["sty"] == 0 and op.get("dflt"):
+                        t.append(tostr(op["str"]))
                     else:
-                        parts.append(mk(E, p["t"]))
-                t = Text.assemble(*parts, style=sty[op["base"]] or "")
-            elif k == "join":
-                lines = [mk(E, o) for o in op["others"]]
-                lines.insert(op["pos"], t)
-                t = mk(E, op["sep"]).join(lines)
-            elif k == "split":
-                pieces = list(t.split(tostr([[c, 1] for c in op["sep"]]), include_separator=op["inc"], allow_blank=op["ab"]))
-            elif k == "divide":
-                pieces = list(t.divide(op["offs"]))
-            elif k == "index":
-                try:
-                    t = t[op["i"]]
-                except IndexError:
-                    e["exc"] = "IndexError"
-            elif k == "slice":
-                t = t[(op["a"] if op["hasA"] else None):(op["b"] if op["hasB"] else None)]
-            elif k == "pad":
-                t.pad(op["n"], chr(op["ch"][0]))
-            elif k == "pad_left":
-                t.pad_left(op["n"], chr(op["ch"][0]))
-            elif k == "pad_right":
-                t.pad_right(op["n"], chr(op["ch"][0]))
-            elif k == "align":
-                t.align(op["how"], op["width"], chr(op["ch"][0]))
-            elif k == "truncate":
-                t.truncate(op["w"], overflow=op["ov"], pad=op["pad"])
-            elif k == "right_crop":
-                t.right_crop(op["n"])
-            elif k == "set_length":
-                t.set_length(op["n"])
-            elif k == "expand_tabs":
-                t.expand_tabs(op["n"])
-            elif k == "copy":
-                t = t.copy()
-            elif k == "rstrip":
-                t.rstrip()
-            elif k == "rstrip_end":
-                t.rstrip_end(op["n"])
-            elif k == "remove_suffix":
-                t.remove_suffix("".join(chr(c) for c in op["suffix"]))
-            elif k == "stylize":
-                t.stylize(sty[op["sty"]], op["a"], op["b"] if op["hasB"] else None)
-            elif k == "copy_styles":
-                o = Text(t.plain)
-                for a, b, kk in op["spans"]:
-                    o.stylize(sty[kk], a, b)
-                t.copy_styles(o)
-            elif k == "highlight":
-                if op["how"] == "regex":
-                    t.highlight_regex(op["pat"], sty[op["sty"]])
-                else:
-                    t.highlight_words(op["words"], sty[op["sty"]])
+                        t.append(tostr(op["str"]), sty[op["sty"]])
+                elif k == "append_text":
+                    src = op.get("src", "lit")
+                    o = sib if src == "sib" else t if src == "cur" else mk(E, op["t"])
+                    via = op.get("via", "append")
+                    if via == "append":
+                        t.append(o)
+                    elif via == "append_text":
+                        t.append_text(o)
+                    else:
+                        t = t + o
+                elif k == "append_tokens":
+                    t.append_tokens(_maybe_iter(op, [(tostr(x["str"]), sty[x["sty"]]) for x in op["toks"]]))
+                elif k == "assemble":
+                    parts = []
+                    for p in op["parts"]:
+                        if p["kind"] == "cur":
+                            parts.append(t)
+                        elif p["kind"] == "sib":
+                            parts.append(sib)
+                        elif p["kind"] == "str":
+                            parts.append((tostr(p["str"]), sty[p["sty"]]) if p["sty"] else tostr(p["str"]))
+                        else:
+                            parts.append(mk(E, p["t"]))
+                    t = Text.assemble(*parts, style=sty[op["base"]] or "")
+                elif k == "join":
+                    lines = [mk(E, o) for o in op["others"]]
+                    lines.insert(op["pos"], t)
+                    if op.get("sibpos", -1) >= 0:
+                        lines.insert(op["sibpos"], sib)
+                    ss = op.get("sepsrc", "lit")
+                    sep = sib if ss == "sib" else t if ss == "cur" else mk(E, op["sep"])
+                    t = sep.join(_maybe_iter(op, lines))
+                elif k == "split":
+                    if op.get("dflt"):
+                        pieces = list(t.split())
+                    else:
+                        pieces = list(t.split(tostr([[c, 1] for c in op["sep"]]), include_separator=op["inc"], allow_blank=op["ab"]))
+                elif k == "divide":
+                    pieces = list(t.divide(_maybe_iter(op, op["offs"])))
+                elif k == "fit":
+                    pieces = list(t.fit(op["w"]))
+                elif k == "index":
+                    try:
+                        t = t[op["i"]]
+                    except IndexError:
+                        e["exc"] = "IndexError"
+                elif k == "slice":
+                    t = t[(op["a"] if op["hasA"] else None):(op["b"] if op["hasB"] else None)]
+                elif k in ("pad", "pad_left", "pad_right"):
+                    getattr(t, k)(op["n"], *([] if op.get("dflt") else [chr(op["ch"][0])]))
+                elif k == "align":
+                    e["ov"] = t.overflow or "fold"           # align() truncates with the text's own overflow setting
+                    t.align(op["how"], op["width"], *([] if op.get("dflt") else [chr(op["ch"][0])]))
+                elif k == "truncate":
+                    if op.get("dflt"):                       # overflow=None: "use self.overflow" (documented)
+                        e["ov"] = t.overflow or "fold"
+                        if op["pad"]:
+                            t.truncate(op["w"], pad=True)
+                        else:
+                            t.truncate(op["w"])
+                    else:
+                        t.truncate(op["w"], overflow=op["ov"], pad=op["pad"])
+                elif k == "justify":
+                    lines = E["Lines"]([t])
+                    lines.justify(E["console"], op["w"], op["how"], op["ov"])
+                    t = lines[0]
+                elif k == "right_crop":
+                    t.right_crop(*([] if op.get("dflt") else [op["n"]]))
+                elif k == "set_length":
+                    t.set_length(op["n"])
+                elif k == "expand_tabs":
+                    if op.get("dflt"):                       # tab_size=None: the text's own tab_size
+                        e["n"] = t.tab_size
+                        t.expand_tabs()
+                    else:
+                        t.expand_tabs(op["n"])
+                elif k == "copy":
+                    t = t.copy()
+                elif k == "blank_copy":
+                    t = t.blank_copy()
+                elif k == "set_plain":
+                    t.plain = tostr(op["str"])
+                elif k == "rstrip":
+                    t.rstrip()
+                elif k == "rstrip_end":
+                    t.rstrip_end(op["n"])
+                elif k == "remove_suffix":
+                    t.remove_suffix("".join(chr(c) for c in op["suffix"]))
+                elif k == "stylize":
+                    if op.get("dflt"):
+                        t.stylize(sty[op["sty"]])
+                    else:
+                        t.stylize(sty[op["sty"]], op["a"], op["b"] if op["hasB"] else None)
+                elif k == "copy_styles":
+                    o = Text(t.plain)
+                    for a, b, kk in op["spans"]:
+                        o.stylize(sty[kk], a, b)
+                    t.copy_styles(o)
+                elif k == "highlight":
+                    if op["how"] == "regex":
+                        t.highlight_regex(op["pat"], sty[op["sty"]])
+                    elif op["how"] == "regex-callable":
+                        st = sty[op["sty"]]
+                        t.highlight_regex(op["pat"], lambda m: st if len(m) % 2 else None, style_prefix="repr.")
+                    elif op["how"] == "regex-groups":
+                        t.highlight_regex(op["pat"], style_prefix="repr.")
+                    else:
+                        t.highlight_words(_maybe_iter(op, op["words"]), sty[op["sty"]], case_sensitive=not op.get("nocase"))
+                elif k == "highlighter":
+                    h = {"repr": E["hl"].ReprHighlighter, "null": E["hl"].NullHighlighter}[op["cls"]]()
+                    if op["how"] == "call":
+                        t = h(t)
+                    else:
+                        h.highlight(t)
         except Exception as ex:
             e["exc"] = type(ex).__name__
+            if e["exc"] == "Hang":            # after a few the tree under test is known to be faulty: later ones are cut short
+                _HANGS[0] += 1
+                if _HANGS[0] >= 5:
+                    _DEADLINE[0] = 0.3
         if pieces is not None:
             e["pieces"] = [observe(E, p) for p in pieces]
             if 1 <= op["pick"] <= len(pieces):
@@ -180,97 +302,210 @@ def execute(E, ops):
         if "render_exc" in e["obs"] and e["exc"] == "none":
             e["exc"] = "render:" + e["obs"]["render_exc"]
         events.append(e)
-    return events
+    return (events, t, sib) if want_text else events
 
 
 # ---- random histories ------------------------------------------------------------------------
 
-def rstr(rng, lo=0, hi=6):
-    return "".join(rng.choice(ALPHA) for _ in range(rng.randint(lo, hi)))
+def rstr(rng, lo=0, hi=6, alpha=ALPHA):
+    return "".join(rng.choice(alpha) for _ in range(rng.randint(lo, hi)))
 
 
-def rlit(E, rng, hi=5):
-    s = rstr(rng, 0, hi)
+STRIPPED = "\r\x08\x0b\x0c"
+
+
+def rlit(E, rng, hi=5, meta=False):
+    """a Text literal; construction path (stylize calls / spans= / Text.styled), style notation (objects / strings) and -
+    with meta - the Text's own overflow and tab_size vary"""
+    s = rstr(rng, 0, hi, ALPHA_META if rng.random() < 0.2 else ALPHA)
     n = len(s)
     spans = [[rng.randint(-2, n + 1), rng.randint(-2, n + 2), rng.randint(1, NSTY)] for _ in range(rng.randint(0, 3))]
-    return dict(str=S(E, s), base=rng.choice([0, 0, 1, 2, 3, 4]), spans=spans)
+    lit = dict(str=S(E, s), base=rng.choice([0, 0, 1, 2, 3, 4]), spans=spans)
+    r = rng.random()
+    if r < 0.15:
+        lit.update(via="styled", base=0, spans=[[0, 1000, rng.randint(1, NSTY)]])
+    elif r < 0.35:
+        # the constructor takes the spans as given: only spans inside the (control-free) text
+        s = "".join(c for c in s if c not in STRIPPED)
+        n = len(s)
+        lit.update(via="spans", str=S(E, s),
+                   spans=[[a, b, k] for a, b, k in ([rng.randint(0, n), rng.randint(0, n), rng.randint(1, NSTY)] for _ in range(rng.randint(0, 3))) if a < b])
+    if rng.random() < 0.3:
+        lit["sf"] = 1
+    if meta and rng.random() < 0.35:
+        lit["tov"] = rng.choice(["fold", "crop", "ellipsis", "ignore"])
+    if meta and rng.random() < 0.35:
+        lit["tab"] = rng.choice([1, 2, 3, 4, 8])
+    return lit
+
+
+def self_overlapping(sep):
+    return any(sep[:k] == sep[-k:] for k in range(1, len(sep)))
 
 
 def roff(rng, n):
     return rng.choice([0, n, n - 1, n + 1, 1, -1, -n, -n - 1, rng.randint(-n - 2, n + 3), rng.randint(0, max(0, n))])
 
 
-def random_op(E, rng, n):
+OPS = ["append_str", "append_str", "append_text", "append_text", "append_tokens", "assemble", "join", "split", "split", "divide",
+       "fit", "index", "slice", "slice", "pad", "pad_left", "pad_right", "align", "truncate", "truncate", "justify", "right_crop",
+       "set_length", "expand_tabs", "copy", "blank_copy", "set_plain", "rstrip", "rstrip_end", "remove_suffix", "stylize", "stylize",
+       "copy_styles", "highlight", "highlighter", "new"]
+
+
+def random_op(E, rng, n, cur=None):
+    """n: length of the current text; cur: the current real Text (only its public overflow attribute is read, to keep
+    the width of an ellipsis truncation >= 1)"""
     if rng.random() < 0.08:
         return dict(k="swap")
-    k = rng.choice(["append_str", "append_str", "append_text", "assemble", "join", "split", "split", "divide", "index",
-                    "slice", "slice", "pad", "pad_left", "pad_right", "align", "truncate", "truncate", "right_crop",
-                    "set_length", "expand_tabs", "copy", "rstrip", "rstrip_end", "remove_suffix", "stylize", "stylize",
-                    "copy_styles", "highlight", "new"])
+    k = rng.choice(OPS)
+    op = _random_op(E, rng, n, k, cur)
+    if rng.random() < 0.3 and k not in ("new", "swap"):
+        op["sf"] = 1
+    return op
+
+
+def _random_op(E, rng, n, k, cur):
+    own_ov = (getattr(cur, "overflow", None) or "fold") if cur is not None else "fold"
     if k == "new":
-        return dict(k=k, t=rlit(E, rng, 7))
+        return dict(k=k, t=rlit(E, rng, 7, meta=True))
     if k == "append_str":
-        return dict(k=k, str=S(E, rstr(rng, 0, 4)), sty=rng.randint(0, NSTY))
+        r = rng.random()
+        if r < 0.15:
+            return dict(k=k, str=S(E, rstr(rng, 0, 4)), sty=0, via="add")
+        if r < 0.3:
+            return dict(k=k, str=S(E, rstr(rng, 0, 4)), sty=0, via="append", dflt=True)
+        return dict(k=k, str=S(E, rstr(rng, 0, 4)), sty=rng.randint(0, NSTY), via="append")
     if k == "append_text":
-        return dict(k=k, t=rlit(E, rng), via=rng.choice(["append", "append_text", "add"]))
+        via = rng.choice(["append", "append_text", "add"])
+        r = rng.random()
+        # src = "cur": a text appended to itself, in place or through `+` (9.10.0 extended the span list by a generator over
+        # itself and never returned: fixed in /repo f3b612d; every call runs under a CPU deadline, see execute)
+        src = "sib" if r < 0.25 else "cur" if r < 0.35 else "lit"
+        return dict(k=k, t=rlit(E, rng) if src == "lit" else EMPTY_LIT, via=via, src=src)
+    if k == "append_tokens":
+        toks = [dict(str=S(E, rstr(rng, 0, 3, SAFE)), sty=rng.randint(0, NSTY)) for _ in range(rng.randint(0, 4))]
+        return dict(k=k, toks=toks, it=rng.random() < 0.5)
     if k == "assemble":
         parts = []
         for _ in range(rng.randint(1, 3)):
             r = rng.random()
-            parts.append(dict(kind="cur") if r < 0.4 else dict(kind="str", str=S(E, rstr(rng, 0, 3)), sty=rng.randint(0, NSTY))
-                         if r < 0.7 else dict(kind="text", t=rlit(E, rng, 3)))
+            parts.append(dict(kind="cur") if r < 0.3 else dict(kind="sib") if r < 0.45
+                         else dict(kind="str", str=S(E, rstr(rng, 0, 3)), sty=rng.randint(0, NSTY)) if r < 0.75
+                         else dict(kind="text", t=rlit(E, rng, 3)))
         return dict(k=k, parts=parts, base=rng.randint(0, NSTY))
     if k == "join":
         others = [rlit(E, rng, 3) for _ in range(rng.randint(0, 2))]
-        return dict(k=k, sep=rlit(E, rng, 2), others=others, pos=rng.randint(0, len(others)))
+        ss = rng.choice(["lit", "lit", "lit", "cur", "sib"])
+        return dict(k=k, sep=rlit(E, rng, 2) if ss == "lit" else EMPTY_LIT, sepsrc=ss, others=others, pos=rng.randint(0, len(others)),
+                    sibpos=rng.choice([-1, -1, -1, rng.randint(0, len(others) + 1)]), it=rng.random() < 0.4)
     if k == "split":
-        return dict(k=k, sep=[ord(c) for c in rng.choice(SEPS)], inc=rng.random() < 0.5, ab=rng.random() < 0.5, pick=rng.randint(1, 3))
+        if rng.random() < 0.12:
+            return dict(k=k, sep=[10], inc=False, ab=False, dflt=True, pick=rng.randint(1, 3))
+        sep = rng.choice(SEPS)
+        plain = cur.plain if cur is not None else ""
+        if plain and rng.random() < 0.6:
+            # a separator that occurs: a piece of the current text, preferably around a regex metacharacter
+            metas = [i for i, ch in enumerate(plain) if ch in META]
+            i = rng.choice(metas) if metas and rng.random() < 0.75 else rng.randrange(len(plain))
+            i = max(0, i - rng.choice([0, 0, 1]))
+            sep = plain[i:i + rng.choice([1, 1, 2, 2, 3])] or sep
+        # (separators that overlap themselves - "  " in "a   " - are in: 9.10.0 dropped the last piece there, fixed in /repo 37247ec)
+        return dict(k=k, sep=[ord(c) for c in sep], inc=rng.random() < 0.5, ab=rng.random() < 0.5, pick=rng.randint(1, 3))
     if k == "divide":
-        offs = sorted(rng.randint(0, n) for _ in range(rng.randint(0, 3)))
-        return dict(k=k, offs=offs, pick=rng.randint(1, 3))
+        offs = sorted(rng.randint(0, n + (2 if rng.random() < 0.2 else 0)) for _ in range(rng.randint(0, 3)))
+        return dict(k=k, offs=offs, pick=rng.randint(1, 3), it=rng.random() < 0.4)
+    if k == "fit":
+        return dict(k=k, w=rng.choice([0, 1, 2, 3, n, n + 2]), pick=rng.randint(1, 3))
     if k == "index":
         return dict(k=k, i=roff(rng, n))
     if k == "slice":
         return dict(k=k, hasA=rng.random() < 0.8, a=roff(rng, n), hasB=rng.random() < 0.8, b=roff(rng, n))
     if k in ("pad", "pad_left", "pad_right"):
+        if rng.random() < 0.2:
+            return dict(k=k, n=rng.choice([0, 1, 2, 3]), ch=[32, 1], dflt=True)
         return dict(k=k, n=rng.choice([0, 1, 2, 3]), ch=S(E, rng.choice(PADCH))[0])
     if k == "align":
-        return dict(k=k, how=rng.choice(["left", "center", "right"]), width=rng.randint(0, n + 4), ch=S(E, rng.choice(PADCH))[0])
+        # (a width of 0 with an ellipsis overflow of the text itself would ask for a -1 cell truncation: excluded like in truncate)
+        lo = 1 if own_ov == "ellipsis" else 0
+        if rng.random() < 0.2:
+            return dict(k=k, how=rng.choice(["left", "center", "right"]), width=rng.randint(lo, n + 4), ch=[32, 1], dflt=True, ov="?")
+        return dict(k=k, how=rng.choice(["left", "center", "right"]), width=rng.randint(lo, n + 4), ch=S(E, rng.choice(PADCH))[0], ov="?")
     if k == "truncate":
+        if rng.random() < 0.25:
+            return dict(k=k, w=rng.randint(1 if own_ov == "ellipsis" else 0, n + 3), ov="?", pad=rng.random() < 0.5, dflt=True)
         ov = rng.choice(["crop", "fold", "ellipsis", "ignore"])
         return dict(k=k, w=rng.randint(1 if ov == "ellipsis" else 0, n + 3), ov=ov, pad=rng.random() < 0.5)
+    if k == "justify":
+        ov = rng.choice(["crop", "fold", "ellipsis", "ignore"])
+        return dict(k=k, how=rng.choice(["left", "center", "right"]), w=rng.randint(1 if ov == "ellipsis" else 0, n + 4), ov=ov)
     if k == "right_crop":
+        if rng.random() < 0.15:
+            return dict(k=k, n=1, dflt=True)
         return dict(k=k, n=rng.choice([0, 1, 1, 2, n, n + 1, n + 3, rng.randint(0, n + 1)]))
     if k == "set_length":
         return dict(k=k, n=rng.randint(0, n + 3))
     if k == "expand_tabs":
-        return dict(k=k, n=rng.choice([1, 2, 4, 8]))
-    if k in ("copy", "rstrip"):
+        if rng.random() < 0.3:
+            return dict(k=k, n=0, dflt=True)
+        return dict(k=k, n=rng.choice([1, 2, 3, 4, 8]))
+    if k in ("copy", "rstrip", "blank_copy"):
         return dict(k=k)
+    if k == "set_plain":
+        return dict(k=k, str=S(E, rstr(rng, 0, n + 2, SAFE)))
     if k == "rstrip_end":
         return dict(k=k, n=rng.randint(0, n + 1))
     if k == "remove_suffix":
-        return dict(k=k, suffix=[ord(c) for c in rng.choice(["", "a", " ", "\n", "b ", "ab"])])
+        return dict(k=k, suffix=[ord(c) for c in rng.choice(["", "a", " ", "\n", "b ", "ab", ".", "a" * (n + 1), "\t", "世"])])
     if k == "stylize":
+        if rng.random() < 0.12:
+            return dict(k=k, sty=rng.randint(1, NSTY), a=0, hasB=False, b=0, dflt=True)
         return dict(k=k, sty=rng.randint(1, NSTY), a=roff(rng, n), hasB=rng.random() < 0.7, b=roff(rng, n))
     if k == "copy_styles":
         return dict(k=k, spans=[[rng.randint(0, n), rng.randint(0, n), rng.randint(1, NSTY)] for _ in range(rng.randint(0, 3))])
     if k == "highlight":
-        if rng.random() < 0.5:
-            return dict(k=k, how="regex", pat=rng.choice(["a+", r"\s", "b|x", "(?P<g>a)b", "."]), sty=rng.randint(1, NSTY))
-        return dict(k=k, how="words", words=rng.choice([["a"], ["ab", "b"], [" "]]), sty=rng.randint(1, NSTY))
+        r = rng.random()
+        pats = ["a+", r"\s", "b|x", "(?P<g>a)b", ".", r"\.", r"(?P<number>1)|(?P<brace>\()", "^", "a*", r"\w+"]
+        if r < 0.35:
+            return dict(k=k, how="regex", pat=rng.choice(pats), sty=rng.randint(1, NSTY))
+        if r < 0.5:
+            return dict(k=k, how="regex-callable", pat=rng.choice(pats), sty=rng.randint(1, NSTY))
+        if r < 0.6:
+            return dict(k=k, how="regex-groups", pat=rng.choice(pats), sty=0)
+        return dict(k=k, how="words", words=rng.choice([["a"], ["ab", "b"], [" "], ["."], ["(", "|"], ["A"], ["世", "1"]]), sty=rng.randint(1, NSTY),
+                    nocase=rng.random() < 0.3, it=rng.random() < 0.3)
+    if k == "highlighter":
+        return dict(k=k, cls=rng.choice(["repr", "repr", "null"]), how=rng.choice(["call", "inplace"]))
     raise AssertionError(k)
 
 
 def random_history(E, rng, nops):
     """Ops are generated against the evolving real object so that arguments straddle its ends."""
-    Text = E["Text"]
-    ops = [dict(k="new", t=rlit(E, rng, 7))]
-    for _ in range(nops - 1):
-        ev = execute(E, ops)
+    ops = [dict(k="new", t=rlit(E, rng, 7, meta=True))]
+    while len(ops) < nops:
+        ev, cur, sib = execute(E, ops, want_text=True)
+        if "Hang" in ev[-1]["exc"]:          # the judge cuts the history here anyway; do not pay the deadline again and again
+            break
         n = len(ev[-1]["obs"]["chars"])
-        ops.append(random_op(E, rng, n))
+        op = random_op(E, rng, n, cur)
+        ops.append(op)
+        if shares_objects(op) and rng.random() < 0.4:
+            # aliasing probe: the call produced a new object from, or combined, two live objects - edit the OTHER one and come
+            # back: the edit must not show here (no shared span list / text list)
+            m = len(sib.plain) if op["k"] not in DERIVING else n
+            ops += [dict(k="swap"), _random_op(E, rng, m, rng.choice(["stylize", "stylize", "append_str", "pad_left", "right_crop", "set_plain"]), None),
+                    dict(k="swap")]
     return ops
+
+
+DERIVING = {"new", "assemble", "join", "split", "divide", "fit", "index", "slice", "copy", "blank_copy", "highlighter"}
+
+
+def shares_objects(op):
+    """the call hands the other live object (sib) to the current one, or derives a new object from the current one"""
+    k = op["k"]
+    return (k in DERIVING and k != "new") or op.get("via") == "add" or op.get("src") == "sib" or op.get("sepsrc") in ("sib", "cur") \
+        or op.get("sibpos", -1) >= 0 or any(p.get("kind") in ("sib", "cur") for p in op.get("parts", []))
 
 
 def rewidth(E, o):
@@ -296,8 +531,10 @@ def shape(op):
         return "i=%s" % ("neg" if op["i"] < 0 else "nonneg")
     if k == "new":
         return "ctl=%s" % any(p[0] in (8, 11, 12, 13) for p in op["t"]["str"])
-    if k in ("append_text", "assemble", "join"):
-        return ""
+    if k == "split":
+        return "sep=overlapping" if self_overlapping("".join(map(chr, op["sep"]))) else ""
+    if k == "append_text":
+        return "src=self" if op.get("src") == "cur" else ""
     return ""
 
 
@@ -309,55 +546,80 @@ def run(chk: Check):
                 "contains at least one styled character and one length-changing call")
     chk.trusted = ["drivers/c05.py:observe (len(), plain, per-character style read back with Text.render; "
                    "style -> {attribute ids, colour id})", "rich.cells.get_character_cell_size for argument widths (subject of C13)"]
-    chk.assumptions = ["pad counts, truncate/align widths, crop amounts, set_length, tab sizes are non-negative "
-                       "(ellipsis width >= 1); divide offsets sorted within 0..len; separators do not overlap themselves"]
+    chk.assumptions = ["pad counts, truncate/align/justify widths, crop amounts, set_length, tab sizes are non-negative "
+                       "(ellipsis width >= 1); divide offsets sorted within 0..len+2; split follows re.finditer / str.split: matches are taken left to right, non-overlapping",
+                       "append_tokens / the plain setter are given strings without the control codes the constructor strips (the statement "
+                       "does not say whether these entry points strip); spans handed to the constructor lie inside the text",
+                       "a call made without an optional argument is judged with the documented default (right_crop 1, pad character blank, "
+                       "split on newline); truncate()/align() without overflow and expand_tabs() without a size use the Text's own public "
+                       "overflow / tab_size attribute, read just before the call",
+                       "the plain setter and the highlighters only constrain characters and len(); the styling they leave is adopted",
+                       ]
     hists = []
     if chk.replay_only:
         hists.append(chk.replay_only["case"]["ops"])
+    elif os.environ.get("VERIF_C05_PARTS") == "random":          # development aid (trying mutants): random histories only
+        chk.notes["parts_run"] = "random"
+        hists += [random_history(E, chk.rng, chk.rng.randint(2, 12)) for _ in range(chk.pick(2500, 40000))]
     else:
+        # the model checks and the history generation by TLC run side by side (independent JVMs); the random histories are
+        # generated on the real code meanwhile
+        from concurrent.futures import ThreadPoolExecutor
         inv = [l for l in open(tlc.SPECS + "/MC_TextOps.cfg").read().splitlines() if l.startswith("INVARIANT")]
         m1 = "CONSTANTS\n  GenDepth = 0\n  MCDepth = %d\nSPECIFICATION Spec\nVIEW View\nCONSTRAINT DepthBound\n%s\nCHECK_DEADLOCK FALSE\n" % (
             chk.pick(2, 3), "\n".join(inv))
-        r, cov, missing = tlc.model_check("MC_TextOps", cfg_text=m1, require_actions=ACTIONS)
+        spans_cfg = open(tlc.SPECS + "/MC_TextSpans.cfg").read()
+        cfgt = "CONSTANTS\n  GenDepth = %d\n  MCDepth = 0\nSPECIFICATION Spec\nCONSTRAINT Emit\nCHECK_DEADLOCK FALSE\n"
+        pool = ThreadPoolExecutor(7)
+        f_m1 = pool.submit(tlc.model_check, "MC_TextOps", cfg_text=m1, require_actions=ACTIONS, workers=8, tag="c05m1")
+        # design level: the span representation (transcribed from text.py) refines the reference semantics
+        f_sp = pool.submit(tlc.model_check, "MC_TextSpans", cfg_text=spans_cfg.replace("MCDepth = 3", "MCDepth = %d" % chk.pick(3, 4)), workers=4, tag="c05sp",
+                           require_actions=["New", "AppendA", "StylizeA", "PadA", "CropA", "SetLengthA", "TruncateA"])
+        f_guard = {sw: pool.submit(tlc.model_check, "MC_TextSpans", cfg_text=spans_cfg.replace("%s = TRUE" % sw, "%s = FALSE" % sw), workers=2, tag="c05g")
+                   for sw in ("CropClamp", "StartClamp", "CtorLen")}      # each 9.10.0 behaviour must be caught by TLC
+        f_ex = pool.submit(tlc.behaviours, "MC_TextOps", cfg_text=cfgt % 2, timeout=3000, tag="c05ex")
+        f_sim = pool.submit(tlc.behaviours, "MC_TextOps", cfg_text=cfgt % 7, simulate="num=%d" % chk.pick(1500, 30000), depth=9,
+                            seed=chk.seed + 1, timeout=3000, tag="c05sim")
+        rnd = [random_history(E, chk.rng, chk.rng.randint(2, 12)) for _ in range(chk.pick(2500, 40000))]
+        chk.mark("random-generate")
+        r, cov, missing = f_m1.result()
         chk.add_tlc(r, "M1")
         if r.violated or missing:
             raise tlc.TLCFailure("MC_TextOps violated=%s missing=%s\n%s" % (r.violated, missing, r.out[-3000:]))
         chk.notes["m1_action_coverage"] = {k: v[1] for k, v in cov.items()}
-        # design level: the span representation (transcribed from text.py) refines the reference semantics
-        base = open(tlc.SPECS + "/MC_TextSpans.cfg").read().replace("MCDepth = 3", "MCDepth = %d" % chk.pick(3, 4))
-        rs, covs, miss = tlc.model_check("MC_TextSpans", cfg_text=base,
-                                         require_actions=["New", "AppendA", "StylizeA", "PadA", "CropA", "SetLengthA", "TruncateA"])
+        rs, covs, miss = f_sp.result()
         chk.add_tlc(rs, "M1-span-design-refines")
         if rs.violated or miss:
             raise tlc.TLCFailure("MC_TextSpans violated=%s missing=%s\n%s" % (rs.violated, miss, rs.out[-3000:]))
-        for sw in ("CropClamp", "StartClamp", "CtorLen"):      # each 9.10.0 behaviour must be caught by TLC
-            rg, _, _ = tlc.model_check("MC_TextSpans", cfg_text=open(tlc.SPECS + "/MC_TextSpans.cfg").read().replace("%s = TRUE" % sw, "%s = FALSE" % sw))
+        for sw, f in f_guard.items():
+            rg, _, _ = f.result()
             chk.add_tlc(rg, "M1-span-design-guard")
             if not rg.violated:
                 raise tlc.TLCFailure("vacuity guard: MC_TextSpans with %s = FALSE was not rejected" % sw)
         chk.notes["span_design_defect_switches_caught"] = ["CropClamp", "StartClamp", "CtorLen"]
-        cfgt = "CONSTANTS\n  GenDepth = %d\n  MCDepth = 0\nSPECIFICATION Spec\nCONSTRAINT Emit\nCHECK_DEADLOCK FALSE\n"
-        behs, r2 = tlc.behaviours("MC_TextOps", cfg_text=cfgt % 2, timeout=3000)
+        behs, r2 = f_ex.result()
         chk.add_tlc(r2, "M2-exhaustive-depth-2")
-        sims, r3 = tlc.behaviours("MC_TextOps", cfg_text=cfgt % 7, simulate="num=%d" % chk.pick(1500, 30000), depth=9,
-                                  seed=chk.seed + 1, timeout=3000)
+        sims, r3 = f_sim.result()
         chk.add_tlc(r3, "M2-simulate-depth-7")
+        pool.shutdown()
         behs += sims
         chk.notes["tlc_generated_histories"] = len(behs)
+        chk.mark("M1+M2 (concurrent)")
         if not behs:
             raise tlc.TLCFailure("MC_TextOps generated no behaviours\n" + r2.out[-2000:])
         for b in behs:
-            hists.append([dict(o, **{k: rewidth(E, o[k]) for k in ("t", "str", "ch", "parts", "sep2", "others") if k in o},
+            hists.append([dict(o, **{k: rewidth(E, o[k]) for k in ("t", "str", "ch", "parts", "sep2", "others", "toks") if k in o},
                                **({"sep": rewidth(E, o["sep"])} if o["k"] == "join" else {})) for o in b["beh"]])
-        for i in range(chk.pick(2500, 40000)):
-            hists.append(random_history(E, chk.rng, chk.rng.randint(2, 12)))
+        hists += rnd
     recs = []
     for ops in hists:
         ev = execute(E, ops)
         recs.append(ev)
         styled = any(c[1] for e in ev for c in e["obs"]["chars"])
         chk.case(ops, styled and len(ops) >= 2)
+    chk.mark("execute")
     verdicts, st = tlc.judge("Trace_TextOps", recs)
+    chk.mark("M3-judge")
     chk.add_tlc(st, "M3")
     chk.traces += len(recs)
     for ops, ev, v in zip(hists, recs, verdicts):
